@@ -8,11 +8,40 @@ from ..lib.mir import is_call, unref, path_str
 D = "scale_info_derive::"
 
 
-def closure_tree(prog, root_path):
-    """root body + all closures nested in it"""
-    out = [root_path]
-    out += list(prog.closures_by_root.get(root_path, []))
-    return [p for p in out if prog.body(p) is not None]
+def closure_tree(prog, root_path, deep=True):
+    """root body + all closures nested in it (+, with deep, the crate-local NON-PUBLIC functions it calls, transitively, with
+    their closures: a rule that scans a function for what it does must not care whether part of it was extracted into a helper)"""
+    out, work, seen = [], [root_path], set()
+    while work:
+        p = work.pop()
+        if p in seen:
+            continue
+        seen.add(p)
+        b = prog.body(p)
+        if b is None:
+            continue
+        out.append(p)
+        work += list(prog.closures_by_root.get(p, []))
+        if not deep:
+            continue
+        for _, t in b.calls():
+            for tgt in (t.get("resolved"), t.get("callee")):
+                f = prog.fns.get(tgt)
+                if f is not None and tgt in prog._bodies_raw and f.get("vis") != "pub" and f.get("kind") in ("Fn", "AssocFn") \
+                        and "impl_trait" not in f and not mir.strip_generics(tgt).startswith(D + "utils::") and not mir.strip_generics(tgt).startswith(D + "attr::"):
+                    work.append(tgt)
+        # fn items passed as values (`filter_map(doc_literal)`)
+        for i, j, st in b.stmts():
+            if st["k"] == "assign":
+                for x in mir.walk(b.rvalue_term(st["rv"])):
+                    if x[0] == "fn" and x[3] in prog._bodies_raw and prog.fns[x[3]].get("vis") != "pub":
+                        work.append(x[3])
+        for _, t in b.calls():
+            for a in t["args"]:
+                c = a.get("const") if isinstance(a, dict) else None
+                if isinstance(c, dict) and c.get("fn") in prog._bodies_raw and prog.fns[c["fn"]].get("vis") != "pub":
+                    work.append(c["fn"])
+    return out
 
 
 def recognisers(prog):
